@@ -205,15 +205,7 @@ def run(ctx):
 
     # ------------------------------------------------------------------ R7 preload uses the same reader
     R7 = ctx.rule("C13-R7", "preloading uses the same reader: the constructor's preload calls read(), so a truncated preloaded body raises like a streamed one", "E8")
-    init = m.method(HR, "__init__")
-    pre = [n_ for n_ in astq.walk_fn(init.node) if isinstance(n_, ast.If) and "preload_content" in astq.text(n_.test)]
-    ctx.sites(R7, len(pre), 1, "preload branch")
-    for n_ in pre:
-        cs = [astq.call_text(c) for c in astq.calls(ast.Module(body=n_.body, type_ignores=[]))]
-        ctx.ob(R7, init.qual, f"preload reads through {cs}", cs == ["self.read"], node=n_)
-    dp = m.classes[HR].methods.get("data")
-    ok = dp is not None and "self.read(cache_content=True)" in astq.text(dp.node)
-    ctx.ob(R7, f"{HR}.data", ".data reads through read(cache_content=True)", ok)
+    c13_rows.r7_preload(ctx, R7)
 
     # ------------------------------------------------------------------ R8 enforcement on by default at every hop
     R8 = ctx.rule("C13-R8", "length enforcement is on by default at every hop of the chain that carries it", "E2")
@@ -225,22 +217,7 @@ def run(ctx):
         ok = isinstance(d, ast.Constant) and d.value is True
         ctx.ob(R8, fi.qual, f"{p} defaults to True", ok, astq.text(d) if d is not None else "no default")
     # and each hop passes its value on
-    mr = m.method(f"{CP}.HTTPConnectionPool", "_make_request")
-    c = [x for x in astq.calls(mr.node) if astq.call_text(x) == "conn.request"]
-    ok = bool(c) and astq.kwarg(c[0], "enforce_content_length") is not None and astq.text(astq.kwarg(c[0], "enforce_content_length")) == "enforce_content_length"
-    ctx.ob(R8, mr.qual, "_make_request forwards enforce_content_length to conn.request", ok)
-    rq = m.method(f"{CN}.HTTPConnection", "request")
-    c = [x for x in astq.calls(rq.node) if astq.call_text(x) == "_ResponseOptions"]
-    ok = bool(c) and astq.text(astq.kwarg(c[0], "enforce_content_length")) == "enforce_content_length"
-    ctx.ob(R8, rq.qual, "request() stores it in the response options", ok)
-    gr = m.method(f"{CN}.HTTPConnection", "getresponse")
-    c = [x for x in astq.calls(gr.node) if astq.call_text(x) == "HTTPResponse"]
-    kv = astq.kwarg(c[0], "enforce_content_length") if c else None
-    ok = kv is not None and isinstance(kv, ast.Attribute) and kv.attr == "enforce_content_length" \
-        and any(astq.text(x) == "self._response_options" for x in astq.sources_of(gr.node, kv.value))
-    ctx.ob(R8, gr.qual, "getresponse() builds the response with the stored option", ok)
-    st_ = [n_ for n_ in astq.walk_fn(m.method(HR, "__init__").node) if isinstance(n_, ast.Assign) and astq.text(n_.targets[0]) == "self.enforce_content_length"]
-    ctx.ob(R8, f"{HR}.__init__", "the response keeps the option it was given", bool(st_) and astq.text(st_[0].value) == "enforce_content_length")
+    c13_rows.r8_enforcement_chain(ctx, R8)
 
 
 def rule_chunk_state(ctx):
